@@ -248,6 +248,12 @@ Definition documented_ok : bool :=
 Definition undocumented_missing : list (text * text) :=
   flat_map (fun ck => map (fun k => (fst ck, k)) (filter (fun k => negb (records (fst ck) k)) (snd ck))) documented.
 
+(* wiring facts of the directive sites (regenerated): every site's introspectable reaches the introspectables=
+   argument of an action, and the site runs under an action method (so the entry points at the statement) *)
+Definition wiring_ok : bool := forallb (fun w => fst (snd w) && snd (snd w)) sites_wiring.
+Definition wiring_covers : bool :=
+  forallb (fun s => existsb (fun w => text_eqb (fst w) (s_func s ++ [46%N] ++ s_var s)) sites_wiring) sites.
+
 (* ---- wire glue *)
 Definition get_intr (v : val) : option intr :=
   match v with
